@@ -160,6 +160,66 @@ def main():
                 o['problems'].append(f'{type(e).__name__}: {e}'[:240])
             out.append(o)
         ch.close()
+
+        # the asyncio client: same surface names, same wire (gRPC positions)
+        async def apass():
+            amod, aclient, ach = rt.grpc_client(pl['module'], 'nm', 'Nm', srv.target, [], asyncio_=True)
+            for i, w in enumerate(words):
+                attr = w + '_'
+                o = out[i]
+                if o['problems'] or o['wire_seen'] != w:
+                    continue          # already reported for the sync client
+                try:
+                    M = getattr(amod, f'M{i}')
+                    meth = f'call{i}'
+                    state['last'] = None
+
+                    def decoded():
+                        return pool.decode(f'{PKG}.M{i}', state['last']['reqs'][0])
+
+                    def header():
+                        for k, v in state['last']['md']:
+                            if k == 'x-goog-request-params':
+                                return urllib.parse.parse_qsl(v, keep_blank_values=True)
+                        return []
+                    seen = None
+                    if position == 'top_field':
+                        await getattr(aclient, meth)(request=M(**{attr: 'v'}))
+                        seen = decoded().get(w) == 'v'
+                    elif position == 'nested_field':
+                        In = getattr(amod, f'In{i}')
+                        await getattr(aclient, meth)(request=M(inner=In(**{attr: 'v'})))
+                        seen = (decoded().get('inner') or {}).get(w) == 'v'
+                    elif position == 'flattened_param':
+                        params = list(inspect.signature(getattr(aclient, meth)).parameters)
+                        if attr not in params:
+                            o['problems'].append(f'asyncio client: parameters {params} lack {attr}')
+                        await getattr(aclient, meth)(**{attr: 'v', 'plain': 'p'})
+                        d = decoded()
+                        seen = d.get(w) == 'v' and d.get('plain') == 'p'
+                    elif position == 'http_path_top':
+                        await getattr(aclient, meth)(request=M(**{attr: 'items/x'}))
+                        seen = (w, 'items/x') in header()
+                    elif position == 'http_path_dotted':
+                        In = getattr(amod, f'In{i}')
+                        await getattr(aclient, meth)(request=M(inner=In(**{attr: 'items/x'})))
+                        seen = (f'inner.{w}', 'items/x') in header()
+                    elif position == 'routing_field':
+                        await getattr(aclient, meth)(request=M(**{attr: 'v'}))
+                        seen = (w, 'v') in header()
+                    elif position == 'rpc_name':
+                        if not hasattr(aclient, attr):
+                            o['problems'].append(f'asyncio client lacks method {attr}')
+                        await getattr(aclient, attr)(request=M(plain='p'))
+                        seen = state['last']['path'] == f'/{PKG}.Nm/{cap(w)}'
+                    if seen is False:
+                        o['problems'].append(f'asyncio client: wire differs ({position}): path={state["last"] and state["last"]["path"]} '
+                                             f'md={state["last"] and [m for m in state["last"]["md"] if m[0].startswith("x-goog-req")]}')
+                except Exception as e:
+                    o['problems'].append(f'asyncio client: {type(e).__name__}: {e}'[:240])
+            await ach.close()
+        import asyncio
+        asyncio.run(apass())
     finally:
         srv.stop(); hsrv.stop()
     rt.emit(dict(obs=out))
